@@ -8,8 +8,8 @@ import numpy as np
 import common as C
 import hydro_common as HC
 
-LEAN_MODULE = "WallGoVerif.Props.C06"
-LEMMA_MODULES = ["WallGoVerif.Lemmas.Hydro"]
+LEAN_MODULES = ["WallGoVerif.Props.C06", "WallGoVerif.Props.C06J"]
+LEMMA_MODULES = ["WallGoVerif.Lemmas.Hydro", "WallGoVerif.Lemmas.Jouguet", "WallGoVerif.Model.Jouguet"]
 GEN_MODULES = ["Helpers", "Hydro"]
 VALIDATION_POINTS = (100, 2000)
 RULE = ("obligations = Lean theorems of Props.C06 about regenerated Gen.R.Hydro (vm^2 = max(min(vw^2, cs-^2),0); deflagration vm=vw<=cs-, "
@@ -18,6 +18,27 @@ RULE = ("obligations = Lean theorems of Props.C06 about regenerated Gen.R.Hydro 
         "every real matching incl. artificially tight phase ranges; distinct = (EOS, branch, rounded vw) and (EOS, range cut)")
 ASSUMPTIONS = ["truth of the EOS inequalities (v+<v- for deflagrations etc.) is physics of the sampled EOS, monitored not proved",
                "fastestDeflag/slowestDeton: monotonicity of T+-(vw) is sampled on a velocity grid"]
+
+
+def corr(rep: C.Report, tier: str):
+    """Model.Jouguet.search (Float) vs the REAL findJouguetVelocity bracket search: stub equation of state and a stub root_scalar that
+    captures the residual function (installed from outside); same method (brentq/secant), same bracket, same number of widening steps."""
+    r = C.rng("C06corr")
+    lines, expect = [], []
+    for _ in range(300 if tier == "quick" else 4000):
+        ln, e = HC.scripted_jouguet(*HC.jouguet_params(r))
+        lines.append(ln)
+        expect.append(e)
+    outs = C.lean_run("JouguetF", lines)
+    bad = []
+    for ln, e, o_ in zip(lines, expect, outs):
+        rep.case(key=("jouguet-search", o_.split()[0], o_.split()[3] if len(o_.split()) > 3 else "?"))
+        rep.count(f"jouguet search {o_.split()[0]}")
+        if not o_.startswith(e + " "):
+            bad.append({"real": e, "model": o_, "line": ln[:160]})
+    rep.obligation("correspondence Model.Jouguet.search = real Hydrodynamics.findJouguetVelocity bracket search (method, bracket, steps)",
+                   "correspondence", not bad and len(outs) == len(lines), f"{len(lines)} searches; {bad[:1]}")
+    rep.extra["jouguet_disagreements"] = bad[:3]
 
 
 def search(rep: C.Report, tier: str, broken):
